@@ -7,4 +7,5 @@ from excel2pycl.src.translators.abstract_translator import AbstractTranslator
 class PatternTokenTranslator(AbstractTranslator):
     @classmethod
     def translate(cls, token: PatternToken, excel: Excel, context: Context) -> str:
-        return f'self._regexp({token.value[0]})'
+        # token.value[0] is the literal with its double quotes; re-quote it so that it stays inert text
+        return f'self._regexp({repr(token.value[0][1:-1])})'
